@@ -1,8 +1,65 @@
 (* BytesProofs.v — byte / digit-vector import and export (C09): u32-word constructors,
    from/to_bytes, to_u32/u64_digits, two's complement and the signed-bytes forms. *)
 From BigNum Require Import Base BaseLemmas SpecBytes BytesLemmas BitDigits BitDigitsProofs
-  Iter IterProofs Bytes.
+  SrcLit SrcLitLemmas Iter IterProofs Bytes.
 Open Scope Z_scope.
+
+(** ** the source-extracted parameters the proofs are about *)
+Definition fsb_std : fsb_params :=
+  {| fs_cmp := Cgt; fs_k := 127; fs_neg := Minus; fs_pos := Plus; fs_tc_eq := true; fs_tc_sign := Minus |}.
+Definition tsb_std : tsb_params :=
+  {| ts_hi_cmp := Cgt; ts_hi_k := 127; ts_exc_neg := true; ts_exc_cmp := Ceq; ts_exc_k := 128;
+     ts_exc_skip := 1%nat; ts_exc_eq := true; ts_exc_sign := Minus; ts_ext := 0;
+     ts_tc_eq := true; ts_tc_sign := Minus |}.
+Definition bytes_std : bytes_params :=
+  {| byp_zero_neg := false; byp_zero_bytes := [0]; byp_to_bits := 8;
+     byp_empty_neg := false; byp_from_bits := 8;
+     byp_fs_be := fsb_std; byp_fs_le := fsb_std; byp_ts_be := tsb_std; byp_ts_le := tsb_std |}.
+
+Definition fsb_ok (f : fsb_params) : bool :=
+  cmpop_eqb (fs_cmp f) Cgt && (fs_k f =? 127) && sign_eqb (fs_neg f) Minus && sign_eqb (fs_pos f) Plus
+  && Bool.eqb (fs_tc_eq f) true && sign_eqb (fs_tc_sign f) Minus.
+Definition tsb_ok (t : tsb_params) : bool :=
+  cmpop_eqb (ts_hi_cmp t) Cgt && (ts_hi_k t =? 127) && Bool.eqb (ts_exc_neg t) true
+  && cmpop_eqb (ts_exc_cmp t) Ceq && (ts_exc_k t =? 128) && Nat.eqb (ts_exc_skip t) 1
+  && Bool.eqb (ts_exc_eq t) true && sign_eqb (ts_exc_sign t) Minus && (ts_ext t =? 0)
+  && Bool.eqb (ts_tc_eq t) true && sign_eqb (ts_tc_sign t) Minus.
+Definition is_single0 (l : list Z) : bool := match l with [z] => z =? 0 | _ => false end.
+Definition bytes_ok (p : bytes_params) : bool :=
+  Bool.eqb (byp_zero_neg p) false && is_single0 (byp_zero_bytes p) && (byp_to_bits p =? 8)
+  && Bool.eqb (byp_empty_neg p) false && (byp_from_bits p =? 8)
+  && fsb_ok (byp_fs_be p) && fsb_ok (byp_fs_le p) && tsb_ok (byp_ts_be p) && tsb_ok (byp_ts_le p).
+
+Lemma fsb_ok_inv f : fsb_ok f = true -> f = fsb_std.
+Proof.
+  destruct f. unfold fsb_ok, fsb_std. cbn -[Z.eqb]. intros H. pin_fields_in H. subst. reflexivity.
+Qed.
+Lemma tsb_ok_inv t : tsb_ok t = true -> t = tsb_std.
+Proof.
+  destruct t. unfold tsb_ok, tsb_std. cbn -[Z.eqb Nat.eqb]. intros H. pin_fields_in H. subst. reflexivity.
+Qed.
+Lemma is_single0_inv l : is_single0 l = true -> l = [0].
+Proof. destruct l as [|z [|? ?]]; try discriminate. cbn. intros H. apply Z.eqb_eq in H. congruence. Qed.
+(** every field is pinned: the accepted parameter record is exactly [bytes_std] *)
+Lemma bytes_ok_inv p : bytes_ok p = true -> p = bytes_std.
+Proof.
+  destruct p. unfold bytes_ok, bytes_std. cbn -[Z.eqb fsb_ok tsb_ok is_single0]. intros H.
+  rewrite !andb_true_iff in H. repeat match goal with H : _ /\ _ |- _ => destruct H end.
+  repeat match goal with
+  | H : fsb_ok _ = true |- _ => apply fsb_ok_inv in H
+  | H : tsb_ok _ = true |- _ => apply tsb_ok_inv in H
+  | H : is_single0 _ = true |- _ => apply is_single0_inv in H
+  | H : Bool.eqb _ _ = true |- _ => apply Bool.eqb_prop in H
+  | H : Z.eqb _ _ = true |- _ => apply Z.eqb_eq in H
+  end.
+  subst. reflexivity.
+Qed.
+Ltac by_std p H := apply bytes_ok_inv in H; subst p.
+Ltac by_red :=
+  cbn [bytes_std fsb_std tsb_std byp_zero_neg byp_zero_bytes byp_to_bits byp_empty_neg byp_from_bits
+       byp_fs_be byp_fs_le byp_ts_be byp_ts_le fs_cmp fs_k fs_neg fs_pos fs_tc_eq fs_tc_sign
+       ts_hi_cmp ts_hi_k ts_exc_neg ts_exc_cmp ts_exc_k ts_exc_skip ts_exc_eq ts_exc_sign ts_ext
+       ts_tc_eq ts_tc_sign cmp_eval blit sign_test] in *.
 
 (** ** u32 words -> native digits *)
 Lemma pair_words_spec : forall w, inb W32 w ->
@@ -59,30 +116,35 @@ Qed.
 Lemma pow2_8 : 2 ^ 8 = 256. Proof. reflexivity. Qed.
 Lemma width8 : exact_width 8. Proof. unfold exact_width; auto. Qed.
 
-Theorem ufrom_bytes_le_spec bs : inb 256 bs -> ufrom_bytes_le bs = Ret (enc (spec_from_bytes_le bs)).
+Theorem ufrom_bytes_le_spec p bs : bytes_ok p = true -> inb 256 bs ->
+  ufrom_bytes_le p bs = Ret (enc (spec_from_bytes_le bs)).
 Proof.
-  intros H. unfold ufrom_bytes_le, spec_from_bytes_le. destruct bs as [|c r] eqn:E; [reflexivity|].
+  intros Hok; by_std p Hok. intros H. unfold ufrom_bytes_le, spec_from_bytes_le. by_red. destruct bs as [|c r] eqn:E; [reflexivity|].
   rewrite <- E in *. cbn [is_nil]. rewrite E at 1. cbn [is_nil].
   rewrite from_bitwise_digits_le_spec; [reflexivity|apply width8|rewrite E; discriminate|exact H].
 Qed.
-Theorem ufrom_bytes_be_spec bs : inb 256 bs -> ufrom_bytes_be bs = Ret (enc (spec_from_bytes_be bs)).
+Theorem ufrom_bytes_be_spec p bs : bytes_ok p = true -> inb 256 bs ->
+  ufrom_bytes_be p bs = Ret (enc (spec_from_bytes_be bs)).
 Proof.
-  intros H. unfold ufrom_bytes_be, spec_from_bytes_be. destruct bs as [|c r] eqn:E; [reflexivity|].
-  rewrite <- E in *. rewrite E at 1. cbn [is_nil]. apply ufrom_bytes_le_spec, inb_rev, H.
+  intros Hok H. unfold ufrom_bytes_be, spec_from_bytes_be. destruct bs as [|c r] eqn:E; [reflexivity|].
+  rewrite <- E in *. rewrite E at 1. cbn [is_nil]. apply ufrom_bytes_le_spec; [exact Hok|apply inb_rev, H].
 Qed.
 
-Theorem uto_bytes_le_spec u : canon u -> uto_bytes_le u = Ret (spec_to_bytes_le (val u)).
+Theorem uto_bytes_le_spec p u : bytes_ok p = true -> canon u ->
+  uto_bytes_le p u = Ret (spec_to_bytes_le (val u)).
 Proof.
-  intros Hu. unfold uto_bytes_le, spec_to_bytes_le. destruct u as [|c r] eqn:E; [reflexivity|].
+  intros Hok; by_std p Hok. intros Hu. unfold uto_bytes_le, spec_to_bytes_le. by_red. destruct u as [|c r] eqn:E; [reflexivity|].
   rewrite <- E in *. assert (Hne : u <> []) by (rewrite E; discriminate).
   rewrite E at 1. cbn [is_nil].
   pose proof (canon_val_pos u Hu Hne). destruct (Z.eqb_spec (val u) 0); [lia|].
   rewrite to_bitwise_digits_le_spec; [reflexivity|apply width8|exact Hu|exact Hne].
 Qed.
-Theorem uto_bytes_be_spec u : canon u -> uto_bytes_be u = Ret (spec_to_bytes_be (val u)).
-Proof. intros Hu. unfold uto_bytes_be. rewrite uto_bytes_le_spec by auto. reflexivity. Qed.
+Theorem uto_bytes_be_spec p u : bytes_ok p = true -> canon u ->
+  uto_bytes_be p u = Ret (spec_to_bytes_be (val u)).
+Proof. intros Hok Hu. unfold uto_bytes_be. rewrite uto_bytes_le_spec by auto. reflexivity. Qed.
 
-Theorem uto_u32_digits_spec u : canon u -> uto_u32_digits u = Ret (spec_to_u32_digits (val u)).
+Theorem uto_u32_digits_spec ip u : iter_ok ip = true -> canon u ->
+  uto_u32_digits ip u = Ret (spec_to_u32_digits (val u)).
 Proof. apply it_collect_spec. Qed.
 Theorem uto_u64_digits_spec u : canon u -> uto_u64_digits u = spec_to_u64_digits (val u).
 Proof.
@@ -92,38 +154,38 @@ Proof.
   - f_equal; try (rewrite B_val; reflexivity).
 Qed.
 
-Theorem ifrom_bytes_le_spec s bs : inb 256 bs ->
-  ifrom_bytes_le s bs = Ret (ienc (sign_z s * spec_from_bytes_le bs)).
+Theorem ifrom_bytes_le_spec p s bs : bytes_ok p = true -> inb 256 bs ->
+  ifrom_bytes_le p s bs = Ret (ienc (sign_z s * spec_from_bytes_le bs)).
 Proof.
-  intros H. unfold ifrom_bytes_le. rewrite ufrom_bytes_le_spec by auto. cbn [bind].
+  intros Hok H. unfold ifrom_bytes_le. rewrite ufrom_bytes_le_spec by auto. cbn [bind].
   rewrite from_biguint_enc; [reflexivity|]. apply (le_value_bound 256 bs); [reflexivity|auto].
 Qed.
-Theorem ifrom_bytes_be_spec s bs : inb 256 bs ->
-  ifrom_bytes_be s bs = Ret (ienc (sign_z s * spec_from_bytes_be bs)).
+Theorem ifrom_bytes_be_spec p s bs : bytes_ok p = true -> inb 256 bs ->
+  ifrom_bytes_be p s bs = Ret (ienc (sign_z s * spec_from_bytes_be bs)).
 Proof.
-  intros H. unfold ifrom_bytes_be. rewrite ufrom_bytes_be_spec by auto. cbn [bind].
+  intros Hok H. unfold ifrom_bytes_be. rewrite ufrom_bytes_be_spec by auto. cbn [bind].
   rewrite from_biguint_enc; [reflexivity|]. apply (le_value_bound 256 (rev bs)); [reflexivity|apply inb_rev; auto].
 Qed.
 
 (** the BigInt exports: sign and magnitude *)
 Lemma icanon_parts x : icanon x -> canon (mag x) /\ sg x = z_sign (ival x) /\ val (mag x) = Z.abs (ival x).
 Proof. intros H. split; [apply H|apply icanon_sign, H]. Qed.
-Theorem ito_bytes_le_spec x : icanon x ->
-  ito_bytes_le x = Ret (z_sign (ival x), spec_to_bytes_le (Z.abs (ival x))).
+Theorem ito_bytes_le_spec p x : bytes_ok p = true -> icanon x ->
+  ito_bytes_le p x = Ret (z_sign (ival x), spec_to_bytes_le (Z.abs (ival x))).
 Proof.
-  intros H. destruct (icanon_parts x H) as (Hc & Hs & Hv). unfold ito_bytes_le.
+  intros Hok H. destruct (icanon_parts x H) as (Hc & Hs & Hv). unfold ito_bytes_le.
   rewrite uto_bytes_le_spec by auto. cbn [bind]. rewrite Hs, Hv. reflexivity.
 Qed.
-Theorem ito_bytes_be_spec x : icanon x ->
-  ito_bytes_be x = Ret (z_sign (ival x), spec_to_bytes_be (Z.abs (ival x))).
+Theorem ito_bytes_be_spec p x : bytes_ok p = true -> icanon x ->
+  ito_bytes_be p x = Ret (z_sign (ival x), spec_to_bytes_be (Z.abs (ival x))).
 Proof.
-  intros H. destruct (icanon_parts x H) as (Hc & Hs & Hv). unfold ito_bytes_be.
+  intros Hok H. destruct (icanon_parts x H) as (Hc & Hs & Hv). unfold ito_bytes_be.
   rewrite uto_bytes_be_spec by auto. cbn [bind]. rewrite Hs, Hv. reflexivity.
 Qed.
-Theorem ito_u32_digits_spec x : icanon x ->
-  ito_u32_digits x = Ret (z_sign (ival x), spec_to_u32_digits (Z.abs (ival x))).
+Theorem ito_u32_digits_spec ip x : iter_ok ip = true -> icanon x ->
+  ito_u32_digits ip x = Ret (z_sign (ival x), spec_to_u32_digits (Z.abs (ival x))).
 Proof.
-  intros H. destruct (icanon_parts x H) as (Hc & Hs & Hv). unfold ito_u32_digits.
+  intros Hok H. destruct (icanon_parts x H) as (Hc & Hs & Hv). unfold ito_u32_digits.
   rewrite uto_u32_digits_spec by auto. cbn [bind]. rewrite Hs, Hv. reflexivity.
 Qed.
 Theorem ito_u64_digits_spec x : icanon x ->
